@@ -140,6 +140,7 @@ func init() {
 				o.alpha = append(append([]string{}, alphaCSV...), alphaPlain...)
 			}
 			t := g.buildTable(o)
+			g.reattach(t, 1, 10)
 			w := g.do("wrap csv " + t)
 			res := g.do("render " + w)
 			viol := oracleCSV(g, t, res)
